@@ -22,6 +22,7 @@ REGENERATED from /repo's source (`Gen/GrpcGun.lean`) and proved equal to the mod
 file imports: a source change there breaks the build of this file.
 -/
 import Pandora.Model.C20
+import Pandora.Model.C20Net
 import Pandora.Spec.C20
 import Pandora.Proofs.C20Conc
 import Pandora.Proofs.C20Scen
@@ -158,6 +159,54 @@ theorem C20_instances (tmo n sc : Nat) (sched : List Nat) (es : List Entry) (h :
 example : ∀ i ∈ [2, 0, 1, 2], i < 3 := by decide
 example : (initPool 3 2).map (·.stub) = [1, 0, 1] := by decide
 
+/-! ### the calls go to the TARGET -/
+
+/-- **C20_target**: for every target, every `reflect_port` (configured or not), every number of instances and every
+shared-client pool size (0 = off): the stub of every instance is one of the connections the warm-up / `Bind` made, it
+is dialled to the target itself — never to the reflection endpoint — and so no call of any pool trace goes anywhere
+else; the reflection endpoint is `replacePort target reflect_port`, which is the target when no port is configured.
+Which `make…Connect` each of `prepareMethodList`, `prepareClientPool` and `Bind` uses, and what the two dial, is
+regenerated from the source (`Bridge.C20.reflectDial_eq`, `poolDial_eq`, `bindDial_eq`, `connectTarget_eq`,
+`reflectionTarget_eq`). -/
+theorem C20_target (c : Net) (n sc : Nat) :
+    (∀ k, k < n → stubDial sc k ∈ dialPlan sc n ∧ stubAddr c sc k = c.target) ∧
+    (∀ tr, strayCalls c sc tr = 0) ∧
+    dialAddr c Dial.reflection = replacePort c.target c.reflectPort ∧
+    replacePort c.target 0 = c.target ∧
+    Gen.GrpcGun.poolDial = "result0($recv.makeConnect())" ∧ Gen.GrpcGun.bindDial = "result0($recv.makeConnect())" ∧
+    Gen.GrpcGun.reflectDial = "result0($recv.makeReflectionConnect())" := by
+  have haddr : ∀ k, stubAddr c sc k = c.target := by
+    intro k
+    unfold stubAddr stubDial
+    by_cases h : (sc == 0) = true <;> simp [h, dialAddr]
+  refine ⟨?_, ?_, rfl, by simp [replacePort], Bridge.C20.poolDial_eq, Bridge.C20.bindDial_eq, Bridge.C20.reflectDial_eq⟩
+  · intro k hk
+    refine ⟨?_, haddr k⟩
+    unfold stubDial dialPlan
+    by_cases h : (sc == 0) = true
+    · simp [h]; exact hk
+    · have hsc : sc ≠ 0 := by simpa using h
+      have hpos : 0 < sc := Nat.pos_of_ne_zero hsc
+      simp [h, stubOf]
+      exact Nat.mod_lt _ hpos
+  · intro tr
+    unfold strayCalls
+    have : (tr.filter fun (x : Nat × Nat × Outcome) => stubAddr c sc x.1 != c.target) = [] := by
+      apply List.filter_eq_nil_iff.mpr
+      intro x _
+      simp [haddr]
+    simp [this]
+
+/-- non-vacuity / what `replacePort` does: a configured port replaces the target's, is appended to a bare host and to a
+host whose last part is not a number -/
+example : replacePort "127.0.0.1:8080" 9090 = "127.0.0.1:9090" ∧ replacePort "localhost" 9090 = "localhost:9090" ∧
+    replacePort "[::1]" 9090 = "[::1]:9090" ∧ replacePort "[::1]:80" 9090 = "[::1]:9090" ∧
+    replacePort "host:8080" 0 = "host:8080" := by decide
+example : dialPlan 2 3 = [Dial.reflection, Dial.pool 0, Dial.pool 1] ∧
+    dialPlan 0 2 = [Dial.reflection, Dial.own 0, Dial.own 1] ∧
+    dialAddr { target := "t:1", reflectPort := 2 } Dial.reflection = "t:2" ∧ stubAddr { target := "t:1", reflectPort := 2 } 2 1 = "t:1" := by
+  decide
+
 /-! ### timeouts -/
 
 /-- **C20_timeout**: every call of a grpc/json entry and every call the specification demands of a scenario step
@@ -197,9 +246,12 @@ example : effTimeoutMs 0 = 15000 ∧ effTimeoutMs 40000 = 40000 ∧ dlText 0 = "
 definition's templates, and every gun's template cache holds templates of the definition -/
 abbrev DefinitionsIntact (c : Cfg) (w : World) : Prop := WOk c w
 
-/-- the step is inside the modelled fragment (its templates refer only to variables that exist) -/
-def Modelled (c : Cfg) (cd : CallDef) (sv : ShotVars) : Prop :=
-  ((cd.pre && c.users.isEmpty) || needsMissing cd sv) = false
+/-- the step is inside the modelled fragment: a step with a `[next]` preprocessor has a user list to draw from (an empty
+source is a configuration the provider rejects). Templates may refer to variables that do not exist — the token of an
+`auth` step that has not run, failed, or is the step itself; the user of a step without preprocessor — they print
+`<no value>` (`<nil>` through `print`), `mkVars`. -/
+def Modelled (c : Cfg) (cd : CallDef) : Prop :=
+  (cd.pre && c.users.isEmpty) = false
 
 /-- the step names no method of the table, or its rendered payload does not fit the method's input type -/
 def FailingStep (cd : CallDef) (vars : Vars Char) : Prop :=
@@ -219,7 +271,7 @@ the invariant, with `vars` = the variables of THIS step (its own `[next]` user, 
    the RENDERED payload decodes to against `M`'s input fields, the metadata = the definition's templates rendered with
    `vars`, under the configured timeout; and re-establishes the invariant. -/
 theorem C20_scenario_step (c : Cfg) (gun : Nat) (scn : String) (cd : CallDef) (w : World) (sv : ShotVars)
-    (hd : namesDistinct c.calls = true) (hw : DefinitionsIntact c w) (hcd : cd ∈ c.calls) (hm : Modelled c cd sv) :
+    (hd : namesDistinct c.calls = true) (hw : DefinitionsIntact c w) (hcd : cd ∈ c.calls) (hm : Modelled c cd) :
     (FailingStep cd (stepVars c cd w.iters sv).1 →
         ∃ (w' : World) (o : Outcome), shootStep .copy c gun scn cd w sv = .failed w' o ∧ o.calls = [] ∧
           (o.samples = [sampleText (scn ++ ".t" ++ cd.name) 0] ∨ o.samples = [sampleText (scn ++ ".t" ++ cd.name) 400]) ∧
@@ -258,7 +310,7 @@ theorem C20_scenario_step (c : Cfg) (gun : Nat) (scn : String) (cd : CallDef) (w
 before it produced plus the failed sample, whatever steps follow. -/
 theorem C20_scenario_shot_ends_at_failure (c : Cfg) (gun : Nat) (scn : String) (cd : CallDef) (rest : List CallDef)
     (w : World) (sv : ShotVars) (acc : Outcome)
-    (hd : namesDistinct c.calls = true) (hw : DefinitionsIntact c w) (hcd : cd ∈ c.calls) (hm : Modelled c cd sv)
+    (hd : namesDistinct c.calls = true) (hw : DefinitionsIntact c w) (hcd : cd ∈ c.calls) (hm : Modelled c cd)
     (hf : FailingStep cd (stepVars c cd w.iters sv).1) :
     ∃ (w' : World) (o : Outcome), shootSteps .copy c gun scn (cd :: rest) w sv acc =
         .done w' { calls := acc.calls, samples := acc.samples ++ o.samples } ∧
@@ -291,7 +343,7 @@ def exCfg : Cfg :=
 
 example : namesDistinct exCfg.calls = true := by decide
 example : exGood ∈ exCfg.calls ∧ exBad ∈ exCfg.calls := by simp [exCfg]
-example : Modelled exCfg exGood { a := none, i := none } ∧ Modelled exCfg exBad { a := none, i := none } := by
+example : Modelled exCfg exGood ∧ Modelled exCfg exBad := by
   constructor <;> (unfold Modelled; decide)
 example (vars : Vars Char) : FailingStep exBad vars := by
   left; simp [exBad, lookupMethod, methodTable, svc]
